@@ -74,6 +74,15 @@ def scenario(rng):
         hid.append(("connect", "inv"))
         hid.append(("inv", "MODE inv +i"))
         hid.append(("inv", "JOIN #pub2"))
+        lobby = rng.random() < 0.4
+        if lobby:
+            # a channel from the configuration that the observer has left as its last member:
+            # having been there does not make it a member when the invisible user comes by later
+            for key in ("cfg0", "cfg1"):
+                sc[key] = dict(sc[key], channels=[{"name": "#lobby", "topic": "configured"}])
+            pub.append(("obs", "JOIN #lobby"))
+            pub.append(("obs", rng.choice(["PART #lobby", "PART #lobby :bye", "PART #lobby,#lobby"])))
+            hid.append(("inv", "JOIN #lobby"))
         if rng.random() < 0.5:
             # other user modes come and go, +i stays
             hid += [("inv", l) for l in rng.choice([["MODE inv +w", "MODE inv -w"], ["MODE inv +w-w"], ["MODE inv +wi", "MODE inv -w"],
@@ -93,6 +102,8 @@ def scenario(rng):
              "WHOIS inv,p1", "WHOIS *", "WHOIS ??v", "WHO p3", "WHOIS p3", "WHO #pub1",
              # the requester's own nickname next to the hidden one
              "WHOIS inv,obs", "WHOIS obs,inv", "WHOIS i*,obs", "WHOIS *,obs", "WHOIS obs", "WHO obs", "WHOIS obs,obs,inv"]
+        if lobby:
+            q += ["WHO #lobby", "NAMES #lobby", "WHO inv", "WHOIS inv", "WHO *"]
         sc["speak"] = []
     rng.shuffle(q)
     sc["queries"] = q[:rng.choice([10, 14, 18])]
